@@ -192,6 +192,10 @@ def handle (toks : List String) : Option String :=
           | none => "bad-op"
         | _, _, _, _, _, _ => "bad-op"
       | _ => "bad-op"
+  | ["ft.tablecheck"] => some <|
+      "inverse " ++ " ".intercalate (Gen.table.map fun e => toString (entryInverseOk e)) ++
+      " | forward " ++ " ".intercalate (Gen.table.map fun e => toString (entryForwardOk e)) ++
+      " | conv " ++ " ".intercalate (Gen.conversions.map fun c => toString (convOk c))
   | ["ft.table"] => some <| toString (Gen.table.length) ++ " " ++
       " ".intercalate (Gen.table.map fun e => toString (e.terms.all (·.useSf)))
   | _ => none
